@@ -376,7 +376,11 @@ class CRTWorld:
             for t in world.transfers:
                 if t['future'] is not None and t['future']._coordinator is coord and \
                         t['type'] == 'download' and t['spec']['dst'] == 'path':
-                    temps = world.fs.temps_of(t['path'])
+                    # this transfer's own temporary file (a twin download to
+                    # the same destination has another one)
+                    req = t.get('request')
+                    recv = req.kwargs.get('recv_filepath') if req is not None else None
+                    temps = [recv] if recv is not None and recv in world.fs.files else []
                     t['at_complete'] = (sim.stamp(), temps)
             return real_set_complete(coord)
         crt.CRTTransferCoordinator.set_done_callbacks_complete = set_complete
@@ -400,7 +404,17 @@ class CRTWorld:
         for i, spec in enumerate(sc['transfers']):
             t = {'idx': i, 'spec': spec, 'type': spec['type'], 'cbs': [], 'future': None,
                  'outcome': None, 'request': None}
-            if spec['type'] == 'download':
+            twin = spec.get('same_dest_as')
+            if spec['type'] == 'download' and twin is not None:
+                # a second download of the same object to the same destination
+                # (an application retrying, two callers): each transfer has its
+                # own temporary file, so one failing must not harm the other
+                o = self.transfers[twin]
+                t['expect'] = o['expect']
+                t['path'] = o['path']
+                t['prev'] = o['prev']
+                t['shared_dest'] = o['shared_dest'] = True
+            elif spec['type'] == 'download':
                 t['expect'] = pattern(i, spec['size'])
                 if spec['dst'] == 'path':
                     t['path'] = '/d/crt%d' % i
@@ -607,6 +621,8 @@ def evaluate(w):
                                 % (t['idx'], _short(cur)))
                 # (result() may have returned before on_done ran at all - the
                 # CRT resolves its future first - so nothing is claimed about it)
+            elif t.get('shared_dest') and (not made or err is not None):
+                pass      # the twin may legitimately have published the object
             elif made and err is None:
                 if cur != t['expect']:
                     w.violation('C20', 'download-not-published',
@@ -665,8 +681,18 @@ def generate(prop, seed):
         if ty == 'upload':
             spec['src'] = rng.choice(['path', 'stream'])
         transfers.append(spec)
+    paths = [i for i, s in enumerate(transfers) if s['type'] == 'download' and s.get('dst') == 'path']
+    if paths and n < 6 and rng.random() < 0.12:
+        j = rng.choice(paths)
+        twin = dict(transfers[j], same_dest_as=j,
+                    outcome=wchoice(rng, [('ok', 3), ('error', 3), ('error_generic', 1)]))
+        transfers.append(twin)
+        n += 1
     faults = []
     for i, spec in enumerate(transfers):
+        if spec.get('same_dest_as') is not None or any(
+                s.get('same_dest_as') == i for s in transfers):
+            continue
         if spec['type'] == 'download' and spec.get('dst') == 'path' and rng.random() < 0.2:
             # the file system refuses the final rename, or the removal of the
             # temporary file (with an OSError that is not "no such file")
